@@ -90,7 +90,8 @@ def roundtrip(layout):
     cvars = _configure(cm, layout, cob)
     cm.subscribe()              # subscribing again (read() then save() does that) must not duplicate delivery
     calls = []
-    cm.add_callback(lambda mp: calls.append(("a", mp)))
+    seen = []          # what a callback sees when it runs: the frame's timestamp and data, already in place
+    cm.add_callback(lambda mp: (calls.append(("a", mp)), seen.append((mp.timestamp, sx.mkbytes(sx.items(mp.data))))))
     cm.add_callback(lambda mp: calls.append(("b", mp)))
     vals = []
     for i, (code, ln) in enumerate(LAYOUTS[layout]):
@@ -114,6 +115,12 @@ def roundtrip(layout):
     sx.prove(cm.timestamp == rig.ts[-1], "consumer map carries the frame's timestamp", tag + "/timestamp")
     sx.prove(len(calls) == 2 and calls[0][0] == "a" and calls[1][0] == "b" and calls[0][1] is cm and calls[1][1] is cm,
              "each callback once with the map", tag + "/callbacks")
+    sx.prove(len(seen) == 1 and seen[0][0] is not None and (seen[0][0] == rig.ts[-1]) is not False
+             and sx.eq_bytes(seen[0][1], sx.mkbytes(sx.items(new[0][2]))) is not False,
+             "inside a callback the map does not yet carry the frame's timestamp and data", tag + "/callback-sees")
+    if len(seen) == 1 and seen[0][0] is not None:
+        sx.prove((seen[0][0] == rig.ts[-1]) & sx.eq_bytes(seen[0][1], sx.mkbytes(sx.items(new[0][2]))),
+                 "callback sees the frame's timestamp and data", tag + "/callback-state")
     # lookups reach the same variables
     name = cvars[0].name
     sx.prove(rig.consumer.tpdo[1][name] is cvars[0] and rig.consumer.tpdo[1][0] is cvars[0]
@@ -161,6 +168,42 @@ def named_lookup():
     except KeyError:
         pass
     sx.reach("named")
+
+
+def roundtrip_from_od(code):
+    """both sides take the PDO configuration from the object dictionary (read(from_od=True), as load_configuration
+    does): one object of the given type fills the PDO - including the 64-bit types"""
+    rig_od = _od()
+    w = S301.width(code)
+    rig = Rig()
+    cob = 0x1A5
+    for node in (rig.producer, rig.consumer):
+        od = node.object_dictionary
+        od[0x1800][1].default = cob
+        od[0x1800][2].default = 255
+        od[0x1A00][0].default = 1
+        od[0x1A00][1].default = (C.TYPE_INDEX[code] << 16) | w
+    pm, cm = rig.producer.tpdo[1], rig.consumer.tpdo[1]
+    pm.read(from_od=True)
+    cm.read(from_od=True)
+    tag = "C15/from-od/%s" % S301.NAMES[code]
+    sx.prove(len(pm.map) == 1 and len(cm.map) == 1, "mapping taken from the dictionary", tag + "/mapping")
+    if len(pm.map) != 1 or len(cm.map) != 1:
+        return
+    sx.prove(pm.map[0].length == w and len(pm.data) == w // 8 and len(cm.data) == w // 8, "object fills the PDO",
+             tag + "/size")
+    if code in (S301.REAL32, S301.REAL64):
+        val = sx.fresh_bytes("val", w // 8)
+        pm.map[0].data = val
+        pm.transmit()
+        sx.prove(sx.eq_bytes(sx.mkbytes(sx.items(cm.map[0].data)), val), "consumer reads the value", tag + "/value")
+    else:
+        lo, hi = S301.int_range(code)
+        val = sx.fresh_int("val", lo, hi)
+        pm.map[0].raw = val
+        pm.transmit()
+        sx.prove(cm.map[0].raw == val, "consumer reads the value", tag + "/value")
+    sx.reach("from-od")
 
 
 def collide():
@@ -377,6 +420,8 @@ def sequence(k, s0=None, s1=None):
 
 def jobs(tier):
     out = [dict(func="named_lookup", params={})]
+    for code in (0x1B, 0x15, 0x11, 0x07, 0x18) if tier == "quick" else (0x1B, 0x15, 0x11, 0x07, 0x18, 0x08, 0x10, 0x16, 0x19):
+        out.append(dict(func="roundtrip_from_od", params=dict(code=code)))
     for layout in ("suite", "aligned", "straddle", "odd"):
         out.append(dict(func="roundtrip", params=dict(layout=layout), weight=5))
     out.append(dict(func="collide", params={}))
@@ -414,7 +459,7 @@ META = dict(
                     "for PDO maps in this harness (frame format is C10's business)"],
     assumptions=["producer and consumer are configured with the same mapping by the harness"],
     stubs=["struct", "threading.Condition", "Network.send_message replaced by a loopback", "logging"],
-    required_reach=["named", "roundtrip", "collide-hit", "collide-miss", "collide-both", "wait-hit", "wait-timeout", "threads-woken", "threads-timeout", "rtr-sent",
+    required_reach=["named", "from-od", "roundtrip", "collide-hit", "collide-miss", "collide-both", "wait-hit", "wait-timeout", "threads-woken", "threads-timeout", "rtr-sent",
                     "rtr-suppressed", "rtr-od-sent", "rtr-od-suppressed", "collide-disabled", "seq-transmit", "seq-foreign", "seq-reconfigure", "sequence"],
     limits=dict(quick=dict(max_decisions=20000), thorough=dict(max_decisions=50000)),
     validate_every=dict(quick=5, thorough=31),
